@@ -59,7 +59,7 @@ type gRun struct {
 
 // gAuthorize creates an authorizer for tok, loads z, authorizes and then queries probe.
 func gAuthorize(tok *Biscuit, z gAuthz, probe Rule) gRun {
-	a, err := NewVerifier(tok)
+	a, err := NewVerifier(tok, gPatient)
 	if err != nil {
 		vAssert(false, "gen.verifier")
 		vAssume(false)
@@ -170,7 +170,7 @@ func VerifC13Reset() {
 	z2.policies = gGenPolicies("pol2", vParam("policies"), vParam("polMode"))
 	probe := gProbe("probe")
 
-	a, err := NewVerifier(g.tok)
+	a, err := NewVerifier(g.tok, gPatient)
 	if err != nil {
 		return
 	}
